@@ -5,7 +5,75 @@ HERE = os.path.dirname(os.path.dirname(os.path.abspath(__file__)))
 props = [json.loads(l) for l in open(os.path.join(HERE, 'properties.jsonl'))]
 ids = [p['id'] for p in props]
 
+TIE = ('Tie to the code, checked on every run: (a) tools/gen_lean.py regenerates FR/Generated from /repo and the leaf library Bridge proves it equal to '
+       'the frozen model tables; (b) differential correspondence: the real FakeSocket objects and the compiled Lean model run the same generated '
+       'histories under a logical clock and recorded random picks; replies and the live state of all databases, subscription tables and '
+       'connection modes are compared after every event. ')
+NOTE = ('Trusted: Lean kernel (+ leanchecker in thorough); axioms printed per theorem (only propext, Classical.choice, Quot.sound); the translator; the '
+        'correspondence harness and its canonicalisation; the hand-written model is validated against the code by the correspondence, not verified. '
+        'CPython, sortedcontainers and redis-py behaviour is modelled. ')
+
 CLAIMS = {
+ 'C01': dict(text='Lean theorems over all byte strings / integers: GETRANGE window = declarative spec (getrange_window), SETRANGE byte-wise spec, APPEND, '
+        'INCR-family exact-or-refused with canonical stored decimal (incr_overflow_refused_unchanged), SETBIT/GETBIT laws; the string/key/TTL command '
+        'bodies are part of the executable model used as the Redis specification. ' + TIE,
+        note=NOTE + 'The Redis side of "as Redis does" is the Lean spec transcribed from the Redis reference; INCRBYFLOAT digits, error precedence and crafted RESTORE payloads follow the code (README deviations).',
+        technique='Lean 4 refinement theorems (model = declarative spec) + differential correspondence', design='7 C01'),
+ 'C02': dict(text='Lean theorems for all lists and all integer arguments: LRANGE = declarative window (lrange_eq_spec), LTRIM keeps the LRANGE window, LINDEX/LSET '
+        'by normalised index, pops conserve elements, RPOPLPUSH on one key rotates, LREM exact semantics (lrem_eq_spec), SPOP/SRANDMEMBER picks are members '
+        'with the prescribed cardinality for every recorded random choice. ' + TIE,
+        note=NOTE + 'Set-ordered replies are compared as multisets; random picks and set iteration order are passed to the model as hints which it validates.',
+        technique='Lean 4 refinement theorems + differential correspondence with validated hints', design='7 C02'),
+ 'C03': dict(text='Lean theorems: pairLt is a strict total order on non-NaN (score, member); the invariant ZSet.Inv (byscore strictly sorted, members unique, the two '
+        'indexes agree, no NaN) is preserved by add/discard and by ZADD/ZINCRBY/ZREM/ZREMRANGE* bodies; rank = index, ZCOUNT = |ZRANGEBYSCORE|, the bisect '
+        'windows equal the declarative inclusive/exclusive filter; ZADD/ZINCRBY never store NaN. Scores are an exact binary64 model. ' + TIE +
+        'A monitor also checks the invariant on the real _byscore/_bylex after every event.',
+        note=NOTE + 'The soft-float codec (decimal->double, +, *, %.17g) is validated bit-for-bit against CPython (C18 check), not proved; CodecLaw (17 digits round-trip) is sampled.',
+        technique='Lean 4 invariant proofs + differential correspondence', design='7 C03'),
+ 'C04': dict(text='Lean theorems: tryParse (encodeRequest fields ++ rest) = (fields, rest) for arbitrary bytes; a complete request is prefix-stable; parsing a stream in any two '
+        'chunks equals parsing it at once (parseAll_append_general); the Bridge theorem callArity_ok shows no accepted argument count makes a Python body raise TypeError. ' + TIE +
+        'Monitors on the implementation: exactly one reply per request (per channel for (P)SUBSCRIBE/(P)UNSUBSCRIBE), well-formed replies, no foreign exception; a crash is a first-class '
+        'outcome of the model. Known finding KF-1 (SUBSCRIBE inside MULTI) is mirrored by the model and reported as KNOWN-FINDING.',
+        note=NOTE + 'The drain-level chunking theorem is conditional on buffer-independence of processCommand (sendall_append_conditional); the generator-based Python parser is tied by chunked sends.',
+        technique='Lean 4 theorems on the parser + differential correspondence incl. malformed stream and random chunking', design='7 C04'),
+ 'C05': dict(text='Lean theorems on the state-machine model: QUEUED has no effect on data (queued_no_effect), EXEC = clear state then run the queue left to right with the same runner as outside '
+        'MULTI (exec_eq_sequential, runInner_eq_runCommand), EXECABORT / nil-on-dirty / without-MULTI / nested-MULTI / WATCH-inside-MULTI branches, normal mode afterwards. ' + TIE,
+        note=NOTE + 'Atomicity w.r.t. other clients is the single lock (C12); in the model an EXEC is one event.',
+        technique='Lean 4 theorems over the StateM model + multi-connection differential correspondence', design='7 C05'),
+ 'C06': dict(text='Lean theorem step_notifies_regular: for every regular command body (all 105 table entries) and every database, any change of the live entry of a key '
+        '(value, existence, deadline) is accompanied by a watch notification for that key; the unrestricted statement is refuted by a kernel-checked witness (unrestricted_false), '
+        'so the theorem carries the per-body discipline ExpModSound, proved for the whole table. EXEC nil-on-dirty and watch clearing are C05 theorems. ' + TIE +
+        'A monitor judges every EXEC of the implementation: changed-since-WATCH => nil, untouched => proceeds.',
+        note=NOTE + 'Special bodies (MOVE, SWAPDB, FLUSH*, SORT STORE, blocking passes, ZUNIONSTORE) are covered by the correspondence and the monitor, not by the generic theorem.',
+        technique='Lean 4 generic theorem over arbitrary command bodies + correspondence + implementation monitor', design='7 C06'),
+ 'C07': dict(text='Lean theorems run_purge_sim / expired_eq_deleted: for an arbitrary command body, running on a database and on the database with every expired entry removed gives the same reply, '
+        'notifications and (purged) result - an expired key is indistinguishable from a deleted one for every regular command. ' + TIE +
+        'A metamorphic monitor runs expired/deleted twins on the implementation alone; histories advance the logical clock to just before/after deadlines.',
+        note=NOTE + 'Deadlines are exact integers in 100 ns ticks; EXPIRE-family arguments beyond 10^12 are outside the modelled band (float rounding, DESIGN F17).',
+        technique='Lean 4 simulation proof on the purge quotient + correspondence + metamorphic twin monitor', design='7 C07'),
+ 'C08': dict(text='Lean theorems: error_reply_changes_nothing_regular - for every regular command, an error reply implies the purged database is unchanged and nothing was notified; '
+        'failed_iff_error_path characterises the error paths; bodies never return an error reply through the success path (regular_reply_not_err). ' + TIE +
+        'Monitor: snapshot before = after on every error reply of the implementation; exhaustive (command x stored type) wrong-type matrix.',
+        note=NOTE, technique='Lean 4 generic theorem over arbitrary bodies + correspondence + implementation monitor', design='7 C08'),
+ 'C09': dict(text='Lean theorems: NoEmpty and NodupKeys are preserved by the generic runner for arbitrary bodies (no_empty_collections); a key that becomes live was notified as a write target '
+        '(reads_create_nothing_regular). ' + TIE + 'Monitor: after every event DBSIZE = |KEYS *| = |complete SCAN|, EXISTS and TYPE agree, no stored empty collection, in every database.',
+        note=NOTE, technique='Lean 4 invariant proof + correspondence + five-views monitor', design='7 C09'),
+ 'C10': dict(text='Lean theorems: deliveries_spec (exactly the channel subscribers then one pmessage per matching pattern subscription, nobody else), publish_spec (count = deliveries), '
+        'subscribe/unsubscribe acknowledgements incl. idempotence and the single ack for an empty unsubscribe, channels_global. Pattern matching is glob_correct (C16). ' + TIE +
+        'Monitor: an independent Python reference of the subscription tables using a port of Redis glob.',
+        note=NOTE + 'KF-1: (P)SUBSCRIBE inside MULTI crashes at EXEC.', technique='Lean 4 theorems over the StateM model + multi-connection correspondence + reference monitor', design='7 C10'),
+ 'C11': dict(text='Partial: the blocking state machine (attempt, park, wake-up re-check, time-out) is part of the executable model; an explicit scheduler runs the real _blocking code in worker threads with a '
+        'hand-off condition variable so that every order of critical sections is an event list replayed on the model (replies, parked set and notified flags compared). Monitors: conservation of '
+        'elements, no parked un-notified consumer on a non-empty list, never parks inside EXEC, wait() arguments within the requested time-out; plus a real-thread smoke run.',
+        note=NOTE + 'threading.Condition, real time-outs and the GIL are not in the model (runtime behaviour it cannot exhibit).',
+        technique='executable Lean model + scheduler-driven trace correspondence (proof obligations: bridge theorems only)', design='7 C11'),
+ 'C13': dict(text='Lean theorems: a regular command changes only the selected database and its reply is independent of the others (regular_frame_other_dbs, regular_independent_of_other_dbs); '
+        'SELECT persists per connection; a new connection starts on db 0. ' + TIE + 'Monitor: frame condition on the implementation for every command except MOVE/SWAPDB/FLUSHALL.',
+        note=NOTE + 'Client construction forms (server=, from_url, asyncio) are exercised by the client-level harness when available.',
+        technique='Lean 4 non-interference theorem + multi-database correspondence + frame monitor', design='7 C13'),
+ 'C15': dict(text='Lean theorems for all element lists, all COUNT >= 1: scan_complete (following cursors from 0 returns exactly the (filtered) sorted elements once each), scan_terminates '
+        '(ceil(n/count) calls), scan_errors (characterisation of the error replies), missing key => empty. ' + TIE + 'Thorough: sizes 0..25 x COUNT 1..30 x 4 commands exhaustively.',
+        note=NOTE, technique='Lean 4 induction over the cursor iteration + correspondence', design='7 C15'),
  'C16': dict(
    text='Theorem glob_correct: for every pattern and every non-empty subject the atom model of compile_pattern (compile + anchored '
         'backtracking matcher) agrees with a Lean port of Redis stringmatchlen; compile is a total function. The model is tied to the code '
@@ -15,8 +83,17 @@ CLAIMS = {
         'proved); the Lean port of stringmatchlen (also cross-checked against an independent Python port). Bytes >= 0x80 in ranges follow the code '
         '(unsigned), README item 5.',
    technique='Lean 4 theorem (functional induction over rglob) + differential correspondence', design='7 C16'),
+ 'C17': dict(text='Lean theorems: tryParse_encode for arbitrary bytes (payloads are taken by length), command-name normalisation touches only the first field and queued arguments are kept verbatim '
+        '(multi_queues_args_unchanged). ' + TIE + 'Binary round trips (all 256 byte values, CR LF, NUL, empty, 100 kB) through every container type, MULTI and pub/sub; redis-py client level '
+        'with decode_responses on/off.',
+        note=NOTE + "redis-py's Encoder is external.", technique='Lean 4 parser theorems + binary round-trip correspondence', design='7 C17'),
+ 'C18': dict(text='Lean theorems: int_decode_iff (accepted iff canonical decimal within range) for Int/DbIndex/BitOffset/BitValue/Timeout, encode_guard, float converters never return NaN and reject '
+        'underscores / leading / trailing whitespace. ' + TIE + 'Function-level correspondence of every converter on decorated literals; the exact binary64 model against CPython '
+        '(parse, %.17g, %.17f, +, *) on boundary and random doubles; strtod-grammar judgement of accepted floats.',
+        note=NOTE + 'The soft-float arithmetic is validated, not proved; hex floats and over/underflow are refused as the code does.',
+        technique='Lean 4 theorems on the converters + bit-exact differential check against CPython', design='7 C18'),
 }
-PENDING = 'check under construction in this round: model and correspondence exist, proof obligations not yet registered'
+PENDING = 'check under construction in this round'
 
 checks, na = [], []
 for i in ids:
